@@ -644,6 +644,15 @@ def run(prog, check):
     check.ob('C13.R5', '%s::both-term-kinds-renamed' % rt.key, all_paths, rt.where,
              'every normal return of the method has renamed the term text (opaque and simple terms alike)' if all_paths else
              'a kind of term is returned without being renamed', 'an opaque term and a simple term holding the same name')
+    # the model-level client of the renamers applies the whole map to a text that holds any of its names (the clause C05.R1 decides
+    # for the alias pass: a text is returned unchanged only when none of the requested names occurs in it)
+    if not getattr(check, '_borrowing', False):
+        from ..report import Borrowed
+        from . import C05 as _c05
+        b05 = Borrowed(check, lambda rule, key: rule == 'C05.R1' and key.endswith('::unchanged-return'), 'C13.R2',
+                       "a text using the second of two requested names: it must come back renamed")
+        b05._borrowing = True
+        _c05.run(prog, b05)
     check.floor('C13.R5', 2)
     check.floor('C13.R1', 5)
     check.floor('C13.R2', 2)
